@@ -442,11 +442,11 @@ func runHistory(c histCase, hooks histHooks) error {
 			if ec.Skip != "" {
 				switch ec.Skip {
 				case "Skipf":
-					Skipf(fts[st.Exec], "skip %s", name)
+					callSkip(func() { Skipf(fts[st.Exec], "skip %s", name) })
 				case "SkipNow":
-					SkipNow(fts[st.Exec])
+					callSkip(func() { SkipNow(fts[st.Exec]) })
 				default:
-					Skip(fts[st.Exec], "skip")
+					callSkip(func() { Skip(fts[st.Exec], "skip") })
 				}
 				errs, logs := fts[st.Exec].drain()
 				if len(errs) != 0 {
